@@ -40,15 +40,15 @@ def isProc : Entry → Prop
   | .proc _ _ => True
   | _ => False
 
-theorem callCb_log (U : Universe) (s : St) (o : Obj) (m : String) (e : Entry) :
+theorem callCb_log (U : Universe) [U.NoReenter] (s : St) (o : Obj) (m : String) (e : Entry) :
     (callCb U s o m e).1.log = e :: s.log := by
-  unfold callCb; simp only; split <;> split <;> rfl
+  unfold callCb; simp only [Universe.NoReenter.noReenter]; split <;> split <;> rfl
 
-theorem callCb_ext {P : Entry → Prop} (U : Universe) (s : St) (o : Obj) (m : String) (e : Entry)
+theorem callCb_ext {P : Entry → Prop} (U : Universe) [U.NoReenter] (s : St) (o : Obj) (m : String) (e : Entry)
     (h : P e) : LogExt P s (callCb U s o m e).1 :=
   ⟨[e], by rw [callCb_log]; rfl, by simpa using h⟩
 
-theorem lifecycle_ext (U : Universe) (s : St) (ev : String) (o : Obj) (m : Mapping)
+theorem lifecycle_ext (U : Universe) [U.NoReenter] (s : St) (ev : String) (o : Obj) (m : Mapping)
     (ent : Option Ent) : LogExt isLife s (lifecycle U s ev o m ent).1 := by
   unfold lifecycle
   split
@@ -63,14 +63,14 @@ theorem lifecycle_ext (U : Universe) (s : St) (ev : String) (o : Obj) (m : Mappi
       · exact LogExt.of_eq rfl
       · exact .refl _ s
 
-theorem attachEvents_ext (U : Universe) (s : St) (o : Obj) (ent : Option Ent) :
+theorem attachEvents_ext (U : Universe) [U.NoReenter] (s : St) (o : Obj) (ent : Option Ent) :
     LogExt isLife s (attachEvents U s o ent).1 := by
   unfold attachEvents
   split
   · exact .refl _ s
   · exact LogExt.trans (LogExt.of_eq rfl) (lifecycle_ext U _ _ o _ ent)
 
-theorem attachAll_ext (U : Universe) (s : St) (e : Ent) (cs : List Obj) :
+theorem attachAll_ext (U : Universe) [U.NoReenter] (s : St) (e : Ent) (cs : List Obj) :
     LogExt isLife s (attachAll U s e cs).1 := by
   induction cs generalizing s with
   | nil => exact .refl _ s
@@ -87,7 +87,7 @@ theorem attachAll_ext (U : Universe) (s : St) (e : Ent) (cs : List Obj) :
 theorem detach_log (s : St) (e : Ent) (st : Ty) : (detach s e st).log = s.log := by
   unfold detach; simp only; split <;> rfl
 
-theorem removeComponent_ext (U : Universe) (s : St) (e : Ent) (t : Ty) :
+theorem removeComponent_ext (U : Universe) [U.NoReenter] (s : St) (e : Ent) (t : Ty) :
     LogExt isLife s (removeComponent U s e t).1 := by
   unfold removeComponent
   cases hf : (visit U t).find? (fun st => (Dict.get? (row s e) st).isSome) with
@@ -111,7 +111,7 @@ theorem removeComponent_ext (U : Universe) (s : St) (e : Ent) (t : Ty) :
           · exact h0.trans (h1.trans (LogExt.of_eq (s' := removeHandler s' removed) rfl))
           all_goals exact h0.trans h1
 
-theorem removeTypes_ext (U : Universe) (s : St) (e : Ent) (ts : List Ty) :
+theorem removeTypes_ext (U : Universe) [U.NoReenter] (s : St) (e : Ent) (ts : List Ty) :
     LogExt isLife s (removeTypes U s e ts).1 := by
   induction ts generalizing s with
   | nil => exact .refl _ s
@@ -126,7 +126,7 @@ theorem removeTypes_ext (U : Universe) (s : St) (e : Ent) (ts : List Ty) :
       · exact h1.trans (ih s')
       all_goals exact h1
 
-theorem sweep_ext (U : Universe) (s : St) (es : List Ent) : LogExt isLife s (sweep U s es).1 := by
+theorem sweep_ext (U : Universe) [U.NoReenter] (s : St) (es : List Ent) : LogExt isLife s (sweep U s es).1 := by
   induction es generalizing s with
   | nil => exact .refl _ s
   | cons e es ih =>
@@ -142,13 +142,13 @@ theorem sweep_ext (U : Universe) (s : St) (es : List Ent) : LogExt isLife s (swe
         · exact h1.trans (ih s')
         all_goals exact h1
 
-theorem clearDead_ext (U : Universe) (s : St) : LogExt isLife s (clearDead U s).1 := by
+theorem clearDead_ext (U : Universe) [U.NoReenter] (s : St) : LogExt isLife s (clearDead U s).1 := by
   unfold clearDead
   split
   · exact .refl _ s
   · exact LogExt.trans (LogExt.of_eq rfl) (sweep_ext U _ _)
 
-theorem deliverPlain_ext (U : Universe) (s : St) (ev args : String) :
+theorem deliverPlain_ext (U : Universe) [U.NoReenter] (s : St) (ev args : String) :
     LogExt isProbe s (deliverPlain U s ev args).1 := by
   unfold deliverPlain
   generalize s.registered = l
@@ -173,7 +173,7 @@ theorem deliverPlain_ext (U : Universe) (s : St) (ev args : String) :
       · exact h
     all_goals exact h
 
-theorem dispatchPlain_ext (U : Universe) (s : St) (ev args : String) :
+theorem dispatchPlain_ext (U : Universe) [U.NoReenter] (s : St) (ev args : String) :
     LogExt isProbe s (dispatchPlain U s ev args).1 := by
   unfold dispatchPlain
   split
@@ -207,11 +207,11 @@ theorem procEntries_of_not_proc (l : List Entry) (h : ∀ e ∈ l, ¬ isProc e) 
     have hl := ih (fun x hx => h x (by simp [hx]))
     cases e <;> simp_all [procEntries, isProc]
 
-theorem callCb_ok {U : Universe} (hn : NoRaise U) (s : St) (o : Obj) (m : String) (e : Entry) :
+theorem callCb_ok {U : Universe} [U.NoReenter] (hn : NoRaise U) (s : St) (o : Obj) (m : String) (e : Entry) :
     (callCb U s o m e).2 = .ok := by
-  unfold callCb; simp only [hn o m]
+  unfold callCb; simp only [hn o m, Universe.NoReenter.noReenter]
 
-theorem deliverPlain_ok {U : Universe} (hn : NoRaise U) (s : St) (ev args : String) :
+theorem deliverPlain_ok {U : Universe} [U.NoReenter] (hn : NoRaise U) (s : St) (ev args : String) :
     (deliverPlain U s ev args).2 = .ok := by
   unfold deliverPlain
   generalize s.registered = l
@@ -236,7 +236,7 @@ theorem deliverPlain_ok {U : Universe} (hn : NoRaise U) (s : St) (ev args : Stri
     · exact callCb_ok hn _ _ _ _
     · rfl
 
-theorem dispatchPlain_ok {U : Universe} (hn : NoRaise U) (s : St) (ev args : String) :
+theorem dispatchPlain_ok {U : Universe} [U.NoReenter] (hn : NoRaise U) (s : St) (ev args : String) :
     (dispatchPlain U s ev args).2 = .ok := by
   unfold dispatchPlain
   split
@@ -246,7 +246,7 @@ theorem dispatchPlain_ok {U : Universe} (hn : NoRaise U) (s : St) (ev args : Str
     · exact deliverPlain_ok hn s ev args
 
 /-- without failures `runProcs` calls exactly the given processors, in order, each once with `dt` -/
-theorem runProcs_exact {U : Universe} (hn : NoRaise U) (s : St) (dt : String) (ps : List Obj) :
+theorem runProcs_exact {U : Universe} [U.NoReenter] (hn : NoRaise U) (s : St) (dt : String) (ps : List Obj) :
     (runProcs U s dt ps).2 = .ok ∧
     procEntries (runProcs U s dt ps).1.log = (ps.map (·, dt)).reverse ++ procEntries s.log := by
   induction ps generalizing s with
